@@ -119,6 +119,23 @@ theorem always_silent (toks : List Token) (trace : List Segment)
       omega
   rw [h1, h2]; rfl
 
+/-- **`CheckManyInstructions` invents nothing**: if every statement starts at column 1 (one instruction per line: the
+indentation belongs to the statement), no TOO_MANY_INSTR is added — whatever the primaries match. -/
+theorem many_instr_silent (toks : List Token) (trace : List Segment)
+    (h : ∀ g ∈ trace, ∀ tk, toks[g.start]? = some tk → tk.col ≤ 1) : manyInstrDiagsRun toks trace = [] := by
+  unfold manyInstrDiagsRun
+  rw [List.flatMap_eq_nil_iff]
+  intro g hg
+  unfold manyInstrDiags
+  split
+  · split
+    · rename_i tk htk
+      have := h g hg tk htk
+      have hn : ¬ 1 < tk.col := by omega
+      simp [hn]
+    · rfl
+  · rfl
+
 /-- Non-vacuity: the token list of `\tx = a + 1;\n` is cleanly spaced. -/
 example : spacingDiagsRun [⟨"TAB", 1, 1, none, 0, 1⟩, ⟨"IDENTIFIER", 1, 5, some "x", 1, 2⟩, ⟨"SPACE", 1, 6, none, 2, 3⟩,
     ⟨"ASSIGN", 1, 7, none, 3, 4⟩, ⟨"SPACE", 1, 8, none, 4, 5⟩, ⟨"IDENTIFIER", 1, 9, some "a", 5, 6⟩, ⟨"SEMI_COLON", 1, 10, none, 6, 7⟩,
